@@ -12,3 +12,12 @@ from .net import *
 from .pub import *
 
 from ._generated import *
+
+# Star-imports also copy sub-module attributes of the imported packages, which can shadow this
+# package's own sub-modules; re-bind them to the modules the import system resolved.
+import sys as _sys
+
+serialization_error = _sys.modules[__name__ + ".serialization_error"]
+map = _sys.modules[__name__ + ".map"]
+net = _sys.modules[__name__ + ".net"]
+pub = _sys.modules[__name__ + ".pub"]
